@@ -515,3 +515,50 @@ PROPS["C11"] = {
     "assumptions": ["map iteration order modelled as ascending key order",
                     "for Permute/Sort/ReverseOrder the dense vector implementation run on the same data is the model"],
 }
+
+# ----------------------------------------------------------------------------- C18
+def c18_jobs(tier):
+    jobs = []
+    quick = tier == "quick"
+
+    def enc(ds):
+        v = 0
+        for d in reversed(ds):
+            v = v * 4 + d
+        return v
+    for k in range(6):
+        jobs.append({"func": "verif_C18_scalar", "args": [k]})
+    vp = [enc(x) for x in ([0, 0, 0], [1, 0, 1], [2, 0, 1], [1, 1, 1], [0, 1, 0])]
+    kinds = [0, 1, 2, 3] if quick else list(range(8))
+    for kind in kinds:
+        for pa in vp:
+            jobs.append({"func": "verif_C18_vector", "args": [kind, 3, pa]})
+        jobs.append({"func": "verif_C18_vector", "args": [kind, 0, 0]})
+        mps = [0, enc([1, 0, 0, 0, 1, 0, 2, 0, 1])]
+        for vk in ([0, 1, 2, 3, 4, 6] if quick else [0, 1, 2, 3, 4, 5, 6, 7]):
+            if kind in (2, 3, 6, 7) and vk in (3, 7):
+                continue  # sparse T() of a slice: known C10 finding, panics before any encoding
+            for pa in mps:
+                jobs.append({"func": "verif_C18_matrix", "args": [kind, vk, pa], "tag": f"kind={kind} view={vk} pa={pa}"})
+    for r in range(0, 3):
+        for c in range(0, 3):
+            jobs.append({"func": "verif_C18_malformed", "args": [0, r, c]})
+    for n in range(0, 3):
+        jobs.append({"func": "verif_C18_malformed", "args": [1, n, 0]})
+    jobs.append({"func": "verif_C18_malformed", "args": [2, 0, 0]})
+    jobs.append({"func": "verif_C18_malformed", "args": [3, 0, 0]})
+    return jobs
+
+
+PROPS["C18"] = {
+    "overlay": [RT, VIEWS, SCALAR_COMMON, _scalar_real("Real64"), ("root/zz_verif_c03.go", "zz_verif_c03.go"), ("root/zz_verif_c18.go", "zz_verif_c18.go")],
+    "mode": "fp", "intmode": "int",
+    "jobs": c18_jobs,
+    "reach": ["C18-scalar", "C18-vector", "C18-matrix", "C18-malformed"],
+    "selftest_vars": ["x", "x.d", "x.h", "a", "a.d", "v", "v.d", "d", "h"],
+    "bounds": {"quick": "JSON pairs of Float64/Float32/Int/ConstFloat64/Real64 scalars (jets N=2, order<=2), dense/sparse Float64/Real64 vectors (length 3, zero patterns) and matrices (Slice/T views of a 3x3 parent, "
+                        "all slice bounds); malformed documents: dense-matrix documents with every Rows,Cols in 0..2 and 0..6 values, sparse-vector documents with <=2 indices in -1..2 and <=2 values, Real64 documents with mismatching derivative/Hessian sizes, wrong kinds",
+               "thorough": "also Float32/Real32 containers and depth-3 views"},
+    "outside": "number formatting and parsing (the contract 'float64 round-trips exactly' of encoding/json is assumed), Export/Import table files, gzip, arbitrary byte strings as reader input, ConfigDistribution (reflection driven)",
+    "assumptions": ["encoding/json is replaced by a data-model stub: Marshal maps Go values to trees of number/string/bool/null/array/object-by-exported-field-name with the number leaves carried through unchanged, Unmarshal assigns by field name and reports kind mismatches"],
+}
